@@ -142,6 +142,31 @@ impl<'a> A<'a> {
     pub fn string(&self, i: usize) -> String {
         STRINGS[self.raw(i).rem_euclid(STRINGS.len() as i64) as usize].to_string()
     }
+    /// which part of a generated buffer is passed: the whole, an empty sub-slice in the middle
+    /// (a real interior address with length 0), a tail or a head
+    pub fn part<'b, T>(&self, i: usize, v: &'b [T]) -> &'b [T] {
+        let k = v.len() / 2;
+        match self.raw(i).rem_euclid(5) {
+            1 => &v[k..k],
+            2 => &v[k..],
+            3 => &v[..k],
+            4 => &v[v.len()..],
+            _ => v,
+        }
+    }
+    pub fn part_str<'b>(&self, i: usize, s: &'b str) -> &'b str {
+        let mut k = s.len() / 2;
+        while !s.is_char_boundary(k) {
+            k -= 1;
+        }
+        match self.raw(i).rem_euclid(5) {
+            1 => &s[k..k],
+            2 => &s[k..],
+            3 => &s[..k],
+            4 => &s[s.len()..],
+            _ => s,
+        }
+    }
     pub fn note<T>(&mut self, s: &[T]) {
         self.sent.push((s.as_ptr() as usize, s.len()));
     }
@@ -192,11 +217,11 @@ const fn m(name: &'static str) -> Meth {
 
 // Basic --------------------------------------------------------------------------------------
 
-pub const BASIC: [Meth; 8] = [
-    m("b_get"), m("b_add"), m("b_two"), Meth { name: "b_default", logged_as: "b_add" }, m("b_unsafe"), m("b_pin"), m("b_pin_mut"), m("b_c_mut"),
+pub const BASIC: [Meth; 9] = [
+    m("b_get"), m("b_add"), m("b_two"), Meth { name: "b_default", logged_as: "b_add" }, m("b_unsafe"), m("b_pin"), m("b_pin_mut"), m("b_c_mut"), m("b_where"),
 ];
 
-pub fn call_basic<O: Basic + ?Sized>(rv: &mut Recv<O>, mi: usize, a: &mut A) -> Ret {
+pub fn call_basic<O: Basic>(rv: &mut Recv<O>, mi: usize, a: &mut A) -> Ret {
     match mi {
         0 => Ret::U(rv.r().b_get()),
         1 => Ret::U(need_mut!(rv).b_add(a.u(0))),
@@ -207,6 +232,7 @@ pub fn call_basic<O: Basic + ?Sized>(rv: &mut Recv<O>, mi: usize, a: &mut A) -> 
         5 => Ret::U(unsafe { Pin::new_unchecked(rv.r()) }.b_pin()),
         6 => Ret::U(unsafe { Pin::new_unchecked(need_mut!(rv)) }.b_pin_mut(a.u(0))),
         7 => Ret::I(need_mut!(rv).b_c_mut(a.i32(0)) as i64),
+        8 => Ret::U(need_mut!(rv).b_where(a.u(0))),
         _ => Ret::NoSuchMethod,
     }
 }
@@ -255,8 +281,9 @@ pub fn call_readonly<O: ReadOnly + ?Sized>(rv: &mut Recv<O>, mi: usize, a: &mut 
         }
         4 => {
             let v = a.words(0);
-            a.note(&v);
-            Ret::U(o.r_sum(&v))
+            let v = a.part(1, &v);
+            a.note(v);
+            Ret::U(o.r_sum(v))
         }
         5 => {
             let arg = if a.flag(1) { Some(a.u(0) as usize) } else { None };
@@ -304,27 +331,35 @@ pub fn call_shapes<O: Shapes + ?Sized>(rv: &mut Recv<O>, mi: usize, a: &mut A) -
         0 => {
             let o = need_mut!(rv);
             let v = a.bytes(0);
-            a.note(&v);
-            Ret::U(o.s_slice(&v) as u64)
+            let v = a.part(1, &v);
+            a.note(v);
+            Ret::U(o.s_slice(v) as u64)
         }
         1 => {
             let o = need_mut!(rv);
             let v = a.words(0);
-            a.note(&v);
-            Ret::U(o.s_slice_u64(&v))
+            let v = a.part(1, &v);
+            a.note(v);
+            Ret::U(o.s_slice_u64(v))
         }
         2 => {
             let o = need_mut!(rv);
             let mut v = a.bytes(0);
-            a.note(&v);
-            let k = o.s_slice_mut(&mut v);
+            let (lo, hi) = {
+                let p = a.part(1, &v);
+                let lo = p.as_ptr() as usize - v.as_ptr() as usize;
+                (lo, lo + p.len())
+            };
+            a.note(&v[lo..hi]);
+            let k = o.s_slice_mut(&mut v[lo..hi]);
             Ret::Multi(vec![Ret::U(k as u64), Ret::Bytes(v)])
         }
         3 => {
             let o = need_mut!(rv);
             let s = a.string(0);
-            a.note_str(&s);
-            Ret::U(o.s_str(&s))
+            let s = a.part_str(1, &s);
+            a.note_str(s);
+            Ret::U(o.s_str(s))
         }
         4 => {
             let o = need_mut!(rv);
@@ -542,6 +577,35 @@ pub fn call_genu64<O: Gen<u64> + ?Sized>(rv: &mut Recv<O>, mi: usize, a: &mut A)
     match mi {
         0 => Ret::U(need_mut!(rv).g_set(a.u(0))),
         1 => Ret::U(rv.r().g_get()),
+        _ => Ret::NoSuchMethod,
+    }
+}
+
+pub const IOPORT: [Meth; 1] = [m("io_read")];
+pub fn call_ioport<O: IOPort + ?Sized>(rv: &mut Recv<O>, mi: usize, a: &mut A) -> Ret {
+    match mi {
+        0 => Ret::U(rv.r().io_read(a.u(0) as u32)),
+        _ => Ret::NoSuchMethod,
+    }
+}
+pub const INSPECT: [Meth; 1] = [m("inspect")];
+pub fn call_inspect<O: Inspect + ?Sized>(rv: &mut Recv<O>, mi: usize, _a: &mut A) -> Ret {
+    match mi {
+        0 => Ret::U(rv.r().inspect()),
+        _ => Ret::NoSuchMethod,
+    }
+}
+pub const KVSTORE: [Meth; 1] = [m("kv_put")];
+pub fn call_kvstore<O: KVStore + ?Sized>(rv: &mut Recv<O>, mi: usize, a: &mut A) -> Ret {
+    match mi {
+        0 => Ret::U(need_mut!(rv).kv_put(a.u(0), a.u(1))),
+        _ => Ret::NoSuchMethod,
+    }
+}
+pub const KEYDUMPER: [Meth; 1] = [m("key_dump")];
+pub fn call_keydumper<O: KeyDumper + ?Sized>(rv: &mut Recv<O>, mi: usize, a: &mut A) -> Ret {
+    match mi {
+        0 => Ret::U(rv.r().key_dump(a.u(0) as u32)),
         _ => Ret::NoSuchMethod,
     }
 }
